@@ -444,6 +444,42 @@ func (s *Storm) Run(clients, perClient int, faults bool) {
 		s.gate.Release()
 		return
 	}
+	// phase 1b (half of the storms): the rules are cleared while requests wait for an instance,
+	// then installed again; every waiter must still hand its instance back
+	if s.r.Intn(2) == 0 {
+		wgc, okc := s.saturate(max, "saturation before clear")
+		if okc {
+			nw := 1 + s.r.Intn(3)
+			wwg := &sync.WaitGroup{}
+			for i := 0; i < nw; i++ {
+				wwg.Add(1)
+				rr := rand.New(rand.NewSource(s.r.Int63()))
+				c := s.genCall(rr, true)
+				go func() {
+					defer wwg.Done()
+					// not "healthy" for the identity oracle: the pool may be cleared when it gets in
+					s.fire(rr, c, false, true, 0, nil)
+				}()
+			}
+			time.Sleep(time.Duration(500+s.r.Intn(1500)) * time.Microsecond)
+			s.pool.ClearPoolRules()
+			k.Count("clears_while_requests_wait", 1)
+			s.gate.Release()
+			if !waitDone(wgc, progressBound) || !waitDone(wwg, progressBound) {
+				s.find("cap", "waiters-stuck", "requests did not complete after the rules were cleared while they waited", dump())
+				return
+			}
+			var uerr error
+			trace.CompileLocked(func() error { uerr = s.pool.UpdatePooledRules(stormRules); return nil })
+			if uerr != nil {
+				k.Inconclusive("re-installing the storm rules failed (C16's subject): " + uerr.Error())
+				return
+			}
+		} else {
+			s.gate.Release()
+			return
+		}
+	}
 	// phase 2: storm
 	var cwg sync.WaitGroup
 	for cl := 0; cl < clients; cl++ {
